@@ -308,6 +308,7 @@ class Generator:
             sig = fn(sig, *a)
             body = fn(body, *a)
         both(R.r1_attrs, log)
+        sig = R.r16_pub_super(sig, log)
         both(R.r2_panics, log)
         both(R.r3_const_uses, self.x.const_names, self_is_bnum, log)
         both(R.r6_int_ident, log)
@@ -383,16 +384,25 @@ class Generator:
                     cpos.append(i)
                     inv_pending = False
             i += 1
-        canary = ['proof', '{', 'assert', '(', 'false', ')', ';', '}']
+        # each canary is guarded by a distinct uninterpreted boolean so that a canary that fired does not
+        # mask the later ones of the same query (Verus assumes a failed assertion afterwards; this matters
+        # for functions marked #[verifier::loop_isolation(false)], whose loop bodies share the query)
         co = []
         cset = set(cpos)
+        nc = 0
         for i, t in enumerate(out):
             co.append(t)
             if i in cset:
-                co += canary
+                co += ['proof', '{', 'if', 'bn_canary__', '(', str(nc), ')', '{', 'assert', '(', 'false', ')', ';', '}', '}']
+                nc += 1
         it.canary_full = join(co)
         it.n_canaries = len(cpos)
-        it.stub = '#[verifier::external_body]\n' + join(header) + '{ unimplemented!() }\n'
+        if it.kind == 'const' and impl is None:
+            # module-level `exec const`: rustc const-evaluates the initialiser even under external_body,
+            # so the stub keeps the real initialiser (trusted outside the home unit, proved inside it)
+            it.stub = '#[verifier::external_body]\n' + it.full + '\n'
+        else:
+            it.stub = '#[verifier::external_body]\n' + join(header) + '{ unimplemented!() }\n'
         gt = []
         for _, g in ghosts:
             gt += g
@@ -575,6 +585,8 @@ class Generator:
         emit('#![allow(unused_imports, unused_variables, unused_mut, dead_code, non_snake_case, unused_parens, unused_braces, unused_assignments, non_upper_case_globals, unreachable_code)]')
         emit('use vstd::prelude::*;')
         emit('verus! {')
+        if canary:
+            emit('pub uninterp spec fn bn_canary__(k: int) -> bool;')
         emit_node(tree, 0)
         emit('} // verus!')
         emit('fn main() {}')
